@@ -58,7 +58,7 @@ class SpendCase:
             q, par = btc.taproot_output(internal, b"")
             spk = b"\x51\x20" + q
         elif typ == "p2tr-script":
-            nleaves = (1 << pathlen) if pathlen is not None else rng.choice([1, 2, 3, 5, 8])
+            nleaves = (1 << pathlen) if (pathlen is not None and pathlen <= 5) else rng.choice([1, 2, 3, 5, 8])
             # half of the leaves execute an OP_CODESEPARATOR before the signature check (BIP342 position is signed over)
             self.cspos = 0xffffffff
             csprefix = b""
@@ -67,13 +67,23 @@ class SpendCase:
             leaf_script = csprefix + push(xk) + O(rng.choice(["CHECKSIG", "CHECKSIG", "CHECKSIGVERIFY"]))
             if leaf_script[-1] == OP["CHECKSIGVERIFY"]:
                 leaf_script += b"\x51"
-            leaves = [(leaf_script, 0xc0)] + [(push(rb(rng, 8)) + O("DROP") + b"\x51", 0xc0) for _ in range(nleaves - 1)]
-            rng.shuffle(leaves)
-            li = [i for i, l in enumerate(leaves) if l[0] == leaf_script][0]
             internal = btc.xonly_pubkey(rng.randrange(1, btc.N))[0]
-            spk, info = btc.p2tr(internal, leaves)
-            self.leaf_index = li
-            ctrl = info["control_block"][li] if isinstance(info.get("control_block"), (list, tuple)) else info["leaves"][li]["control_block"]
+            if pathlen is not None and pathlen > 5:
+                # a long path: the siblings are given as hashes (a full tree of that depth cannot be built)
+                k_ = btc.tapleaf_hash(leaf_script, 0xc0); path_ = b""
+                for _ in range(pathlen):
+                    node_ = rb(rng, 32); path_ += node_; k_ = btc.tapbranch_hash(k_, node_)
+                q_, par_ = btc.taproot_output(internal, k_)
+                spk = b"\x51\x20" + q_
+                ctrl = bytes([0xc0 | par_]) + internal + path_
+                self.leaf_index = 0
+            else:
+                leaves = [(leaf_script, 0xc0)] + [(push(rb(rng, 8)) + O("DROP") + b"\x51", 0xc0) for _ in range(nleaves - 1)]
+                rng.shuffle(leaves)
+                li = [i for i, l in enumerate(leaves) if l[0] == leaf_script][0]
+                spk, info = btc.p2tr(internal, leaves)
+                self.leaf_index = li
+                ctrl = info["control_block"][li] if isinstance(info.get("control_block"), (list, tuple)) else info["leaves"][li]["control_block"]
         if mut == "wrong-hash":
             if typ in ("p2pkh", "p2wpkh"):
                 spk = btc.p2pkh(key2)[0] if typ == "p2pkh" else btc.p2wpkh(key2)[0]
@@ -246,6 +256,11 @@ def targeted_jobs(chk, cmp=CMP_SPEND):
                 if len(c.tx.witness[0][0]) != 64: continue
                 c.tx.witness[0][0] = c.tx.witness[0][0] + byte
                 add("schnorr-spelled:%s:%s:%d" % (typ, byte.hex(), rep), c.tx, c.funding)
+    # script-path spends with real signatures at the longest Merkle paths BIP341 allows (127 and 128 nodes: 4097- and 4129-byte control blocks)
+    for m in (127, 128):
+        for mut in ("valid", "wrong-key"):
+            c = SpendCase(rng, "p2tr-script", mut, 1, 0, 0, pathlen=m)
+            add("longest-path:%d:%s" % (m, mut), c.tx, c.funding)
     # a funding transaction whose encoding contains compact sizes at the one- / three-byte boundary (script lengths 252..256, 253 outputs):
     # the identifier the spending input refers to is the hash of exactly that encoding
     for ln in (252, 253, 254, 255, 256, 65535, 65536):
